@@ -25,6 +25,11 @@ func VerifYield(string) {}
 // VerifActor names the calling long-lived goroutine.
 func VerifActor(string, int) {}
 
+// VerifRecover is deferred by every long-lived data-path goroutine.
+func VerifRecover() {}
+
+func verifQueues(_, _ []chan *Packet) {}
+
 func verifPoolGet(*Packet) {}
 
 func verifPoolPut(*Packet) {}
